@@ -1,6 +1,7 @@
 (* DualVigilanceART (artlib/topological/DualVigilanceART.py): its own search
    loop (visits only categories with positive activation; an upper and a lower
-   threshold; match tracking on every veto) and the category -> cluster map. *)
+   threshold; match tracking on the veto of a category that passes the upper
+   threshold) and the category -> cluster map. *)
 From Coq Require Import List Bool Arith Lia.
 From ART Require Import Num Vec Search Kernel BaseArt SimpleARTMAP.
 Import ListNotations.
@@ -20,7 +21,7 @@ Section DV.
 
   Definition maxval (m : list (nat * nat)) : nat := fold_right (fun p acc => Nat.max (snd p) acc) 0 m.
 
-  (* DualVigilanceART._match_tracking: writes M +- eps unconditionally (no pass test, not inverted) *)
+  (* DualVigilanceART._match_tracking: writes M +- eps (not inverted) *)
   Definition dv_track (Ms : list (list (option N))) (mode : mt) (eps : N) (v : list N) (c : nat) : list N * bool :=
     match nth_error Ms c with
     | Some (Some M :: _) =>
@@ -44,10 +45,12 @@ Section DV.
           if m1 then (Absorb c, v, [(c, v)])
           else if mbin Ms mode (k_inv K) lb c then (Split c, v, [(c, v)])
           else let '(r, v', l) := dv_search Ms mode eps lb veto f v (set_nan c T) in (r, v', (c, v) :: l)
-        else
+        else if m1 then
+          (* only the veto of a vigilance-passing category moves the vigilance (as in BaseART.step_fit; fix: commit) *)
           let '(v1, keep) := dv_track Ms mode eps v c in
           if keep then let '(r, v', l) := dv_search Ms mode eps lb veto f v1 (set_nan c T) in (r, v', (c, v) :: l)
           else (Fresh, v1, [(c, v)])
+        else let '(r, v', l) := dv_search Ms mode eps lb veto f v (set_nan c T) in (r, v', (c, v) :: l)
       end
     end.
 
@@ -63,10 +66,11 @@ Section DV.
           if m1 then (Absorb c, v, [(c, v)])
           else if mbin Ms mode (k_inv K) lb c then (Split c, v, [(c, v)])
           else let '(r, v', lg) := dv_scan Ms mode eps lb veto l' v in (r, v', (c, v) :: lg)
-        else
+        else if m1 then
           let '(v1, keep) := dv_track Ms mode eps v c in
           if keep then let '(r, v', lg) := dv_scan Ms mode eps lb veto l' v1 in (r, v', (c, v) :: lg)
           else (Fresh, v1, [(c, v)])
+        else let '(r, v', lg) := dv_scan Ms mode eps lb veto l' v in (r, v', (c, v) :: lg)
     end.
 
   Definition positive_mask (Ts : list N) : list (option N) :=
